@@ -160,10 +160,10 @@ def discharge(world, obligations, timeout_ms=10000, jobs=None, use_fallbacks=Tru
         for w in work:
             v = solve_one(w)
             out[v.oid] = v
-        return out
-    with ProcessPoolExecutor(max_workers=jobs) as ex:
-        for v in ex.map(solve_one, work, chunksize=1):
-            out[v.oid] = v
+    else:
+        with ProcessPoolExecutor(max_workers=jobs) as ex:
+            for v in ex.map(solve_one, work, chunksize=1):
+                out[v.oid] = v
     return out
 
 
